@@ -115,6 +115,18 @@ func newTokenizerUsed(kind string, warm string) tokenizers.ITokenizer {
 		t.WordState().SetWordChars(0x3000, 0x303f, false)
 		use(t)
 		return t
+	case "expression+greek":
+		// a block made letters, one character of it made a symbol, then the whole block made letters again with the
+		// very same bounds: the last call decides for every character of the block
+		t := ctok.NewExpressionTokenizer()
+		use(t)
+		t.SetCharacterState(0x0370, 0x03ff, t.WordState())
+		use(t)
+		t.SetCharacterState('Σ', 'Σ', t.SymbolState())
+		use(t)
+		t.SetCharacterState(0x0370, 0x03ff, t.WordState())
+		use(t)
+		return t
 	case "csv+cfg":
 		t := csv.NewCsvTokenizer()
 		use(t)
